@@ -22,6 +22,8 @@ def run(R):
     R.extra["explanation"] = EXPLANATION
     ro = Roles(R)
     stack_not_aliased(R, ro, "C08.UNWIND.SCOPE")
+    common.pop_after_user_code(R, ro, "C08.LIMIT-RESET")
+    reset_callers(R, ro)
     common.active_task_pair(R, ro, "C08.ACTIVE-PAIR")
     common.unwind_rule(R, ro, "C08.UNWIND")
     common.typed_stack_elements(R, ro, "C08.UNWIND-TYPED")
@@ -183,6 +185,34 @@ def reset_rules(R, ro):
                     "reset() clears active_task and the stack-limit branch does not put it back: a task that made the synchronous call which ran away, and that "
                     "handles the RuntimeError, goes on with get_active_task() returning None - contexts it enters afterwards are not registered with it",
                     dcfg.fmt_path(pa) if pa else None)
+
+
+def reset_callers(R, ro, rule="C08.RESET"):
+    """reset() clears the active task.  Outside the constructor it may therefore run only where the task that is executing (a
+    caller of a nested synchronous call) is put back afterwards - the stack-limit branch of the drain does that.  The end of
+    wait_for() is such a place, too: the stack can be empty while a task is still executing (after the limit branch emptied it)."""
+    rs_fn = ro.TS.methods.get("reset")
+    if rs_fn is None or not any(attr == "active_task" for recv, attr, nd in q.attr_stores(rs_fn.node) if recv == "self"):
+        R.ok(rule, R.site(ro.TS.module, ro.TS.node), "reset() does not touch the active task (or is written out)")
+        return
+    for m in ro.ts_methods():
+        if m.name in ("__init__", "reset"):
+            continue
+        cfg = cfg_of(m)
+        for n, c in kit.call_sites(m, lambda c: q.call_name(c) == "self.reset"):
+            restores = []
+            for x in cfg.nodes:
+                if x.kind == "stmt" and isinstance(x.ast, ast.Assign) and any(q.src(t) == "self.active_task" for t in x.ast.targets) and isinstance(x.ast.value, ast.Name):
+                    vals_ = common.assigned_values(m.node, x.ast.value.id)
+                    if vals_ and all(k_ == "expr" and q.src(v_) == "self.active_task" for k_, v_ in vals_):
+                        restores.append(x)
+            after = [e.dst for e in cfg.out_edges(n.id, N) if e.label != "exc"]
+            pa = cfg.find_path(after, [cfg.exit, cfg.raise_exit], N, cut_nodes=restores)
+            R.check(pa is None and restores, rule, "%s:reset-keeps-active" % m.qualname, R.site(m, c),
+                    "after self.reset() in %s the task that was active is active again" % m.name,
+                    "%s calls self.reset(), which also clears active_task, and does not put the active task back: when the stack is empty while a task is "
+                    "still executing (a nested synchronous call hit the stack limit), that task goes on with get_active_task() returning None - the tasks "
+                    "it creates have no creator, the contexts it enters are not registered with it" % m.name, cfg.fmt_path(pa) if pa else None)
 
 
 def batch_residue(R, ro, rule="C08.UNWIND.BATCHES"):
